@@ -1,0 +1,109 @@
+//go:build verif
+
+package hermes
+
+import (
+	"encoding/json"
+	"os"
+	"sync"
+)
+
+// Verification probes (build tag "verif" only). The simulation hands out pointers to its state at
+// named points; projections are done by the receiver, never here.
+
+// VerifProbe receives state probes. Nil means off.
+var VerifProbe func(point string, g *GlobalVarsMain, extra ...interface{})
+
+// VerifEvent receives control events that have no GlobalVarsMain at hand. Nil means off.
+var VerifEvent func(point string, kv ...interface{})
+
+// VerifGate is called before a shared resource is taken; it may block to force a schedule.
+var VerifGate func(point string, key string)
+
+func vprobe(point string, g *GlobalVarsMain, extra ...interface{}) {
+	if VerifProbe != nil {
+		VerifProbe(point, g, extra...)
+	}
+}
+
+func vevent(point string, kv ...interface{}) {
+	if VerifEvent != nil {
+		VerifEvent(point, kv...)
+	}
+}
+
+func vgate(point string, key string) {
+	if VerifGate != nil {
+		VerifGate(point, key)
+	}
+}
+
+// VEvent lets other packages of this repository (the command line tools) emit control events.
+func VEvent(point string, kv ...interface{}) { vevent(point, kv...) }
+
+// VerifFnv is the checksum used for file contents in control events.
+func VerifFnv(b []byte) uint32 {
+	h := uint32(2166136261)
+	for _, c := range b {
+		h ^= uint32(c)
+		h *= 16777619
+	}
+	return h
+}
+
+// separately built binaries: HERMES_VERIF_TRACE=<file> installs a minimal NDJSON writer for control events
+func init() {
+	p := os.Getenv("HERMES_VERIF_TRACE")
+	if p == "" {
+		return
+	}
+	f, err := os.OpenFile(p, os.O_CREATE|os.O_APPEND|os.O_WRONLY, 0644)
+	if err != nil {
+		return
+	}
+	var mu sync.Mutex
+	seq := 0
+	VerifEvent = func(point string, kv ...interface{}) {
+		mu.Lock()
+		defer mu.Unlock()
+		seq++
+		m := map[string]interface{}{"ev": point, "gseq": seq}
+		for i := 0; i+1 < len(kv); i += 2 {
+			if k, ok := kv[i].(string); ok {
+				switch v := kv[i+1].(type) {
+				case []byte:
+					m["len"], m["fnv"] = len(v), VerifFnv(v)
+				case error:
+					if v != nil {
+						m[k] = v.Error()
+					} else {
+						m[k] = ""
+					}
+				default:
+					m[k] = v
+				}
+			}
+		}
+		b, _ := json.Marshal(m)
+		f.Write(append(b, '\n'))
+	}
+}
+
+// ---- export shims for unexported kernels ----
+
+func VerifMineral(g *GlobalVarsMain, l *NitroSharedVars) { mineral(g, l) }
+func VerifNmove(wdt float64, subd int, zeit int, g *GlobalVarsMain, l *NitroSharedVars) {
+	nmove(wdt, subd, zeit, g, l)
+}
+func VerifCalcWRed(wp, fc float64, g *GlobalVarsMain) { calcWRed(wp, fc, g) }
+func VerifSetFieldCapacityWithGW(g *GlobalVarsMain)   { setFieldCapacityWithGW(g) }
+func VerifReadConfig(g *GlobalVarsMain, args map[string]string, hp *HFilePath) Config {
+	return readConfig(g, args, hp)
+}
+func VerifPinit(g *GlobalVarsMain) { pinit(g) }
+func VerifResid(g *GlobalVarsMain, ln *NitroBBBSharedVars, hp *HFilePath) (NDI, NSA, NLA, NUSA, NULA, NRESID float64) {
+	return resid(g, ln, hp)
+}
+func VerifRoot(veloc, tempsum, dz float64) (float64, float64, []float64) {
+	return root(veloc, tempsum, dz)
+}
